@@ -119,6 +119,12 @@ def s1_slot_machine_invariants(F, r):
     for f in SM_INV:
         if f not in fields:
             raise AnchorError(f"SlotMachine.{f}")
+    for f in F.adts[SM]["v"][0]["f"]:
+        if f["n"] in SM_INV:
+            if f.get("vis", "").startswith("in:rosomaxa::algorithms::rl::slot_machine"):
+                r.ok(f"SlotMachine.{f['n']}: visibility", "private to the module: the writers found in the workspace are all writers")
+            else:
+                r.fail(f"SlotMachine.{f['n']}: visibility", f"field is `{f.get('vis')}`: code outside the module (or outside the workspace) can break the invariant", F.adts[SM].get("span"))
     E = _engine(F)
     writers = set()
     builders = set()
